@@ -158,7 +158,7 @@ def utf8Encode : List Char → List UInt8
   | c :: cs => utf8EncodeChar c ++ utf8Encode cs
 
 /-- U+FFFD as `utf8::append(replacement, out)` writes it (checked.h:117, utility.cpp:1780). -/
-def replacementBytes : List UInt8 := [0xEF, 0xBF, 0xBD]
+def replacementMark : List UInt8 := [0xEF, 0xBF, 0xBD]
 
 /-- checked.h:111-112 `while (start != end && is_trail(*start)) ++start;`. -/
 def skipTrail (bs : List UInt8) : List UInt8 := bs.dropWhile isTrail
@@ -180,11 +180,11 @@ def sanitiseF : Nat → List UInt8 → List UInt8
   | f + 1, b :: after =>
     match validateNext (b :: after) with
     | .ok (_, rest) => consumed (b :: after) rest ++ sanitiseF f rest
-    | .error .notEnoughRoom => replacementBytes
-    | .error .invalidLead => replacementBytes ++ sanitiseF f after
-    | .error .incompleteSequence => replacementBytes ++ sanitiseF f (skipTrail after)
-    | .error .overlongSequence => replacementBytes ++ sanitiseF f (skipTrail after)
-    | .error .invalidCodePoint => replacementBytes ++ sanitiseF f (skipTrail after)
+    | .error .notEnoughRoom => replacementMark
+    | .error .invalidLead => replacementMark ++ sanitiseF f after
+    | .error .incompleteSequence => replacementMark ++ sanitiseF f (skipTrail after)
+    | .error .overlongSequence => replacementMark ++ sanitiseF f (skipTrail after)
+    | .error .invalidCodePoint => replacementMark ++ sanitiseF f (skipTrail after)
 
 /-- utility.cpp:1782-1794 `Utility::ValidateUTF8`.  Its `catch (const utf8::not_enough_room&)` is
     dead with this utf8cpp version: `replace_invalid` handles `NOT_ENOUGH_ROOM` itself
